@@ -224,7 +224,7 @@ Proof.
     destruct (took_status _ _ _ Ht) as [Hstat [[r [Hqr ->]]|[r [-> ->]]]].
     + assert (Hk : kcreate kk r) by (destruct Hqr as [->|[pid [ttl ->]]]; exact Hs).
       destruct (created_needs_report cfg kk c t (i_next i) r rsp Hk Hrsp Hstat) as [Hrep [tc0 [wt [pc [tc [-> Hpc]]]]]].
-      unfold rep. rewrite Hrdy, Hrep. cbn in Hke. destruct Hke as [->|[tc' ->]]; cbn; rewrite Hpc; reflexivity.
+      unfold rep. rewrite Hrdy, Hrep. cbn in Hke. destruct tc as [tc'|]; rewrite Hke; cbn; rewrite Hpc; reflexivity.
     + cbn in Hs. destruct (completed_needs_report cfg kk c t (i_next i) r rsp Hs Hrsp Hstat) as [Hrep [p0 [cmd [-> _]]]].
       unfold rep. rewrite Hrdy, Hrep. cbn in Hke. destruct Hke as [t' ->]. cbn. destruct Hs as [_ [Hp0 _]]. destruct Hst as [_ [Hup _]].
       rewrite Hup, Hp0. reflexivity.
